@@ -11,6 +11,7 @@ import (
 	"go/token"
 	"os"
 	"path/filepath"
+	"regexp"
 	"sort"
 	"strings"
 )
@@ -124,6 +125,11 @@ type Site struct {
 	Vars    map[string]Var
 }
 
+var identRe = regexp.MustCompile(`^[A-Za-z_][A-Za-z0-9_']*$`)
+
+// generated global constants that site bodies may mention
+var globals = map[string]bool{"minScore": true, "maxScore": true, "amplifier": true}
+
 type genFile struct {
 	ns    string
 	lines []string
@@ -143,8 +149,19 @@ func emitSite(fc *fileCache, g *genFile, s Site) {
 	body := s.Default
 	where := s.File + " " + s.Func + ": not found"
 	if e != nil {
-		term, _, err := translate(fc.fset, e, s.Vars)
+		term, _, used, err := translateUsed(fc.fset, e, s.Vars)
 		pos := fc.fset.Position(e.Pos())
+		if err == nil {
+			// every leaf must be a parameter of the site (or a generated global constant)
+			for _, u := range used {
+				if !identRe.MatchString(u) || globals[u] {
+					continue
+				}
+				if !regexp.MustCompile(`\b` + regexp.QuoteMeta(u) + `\b`).MatchString(s.Params) {
+					err = xerr{"uses " + u + ", which is not a parameter of this site"}
+				}
+			}
+		}
 		if err == nil {
 			ok = true
 			body = term
